@@ -34,7 +34,7 @@ P = {
    "Trusted: the renderer's gluing rules (two tokens may touch unless they would fuse) and the property's list of places where a newline is significant. Error messages and positions are not compared (C12).", "5/C13"),
  "C14": ("exploration", "rapid PBT over command-line configurations materialised in private directories: differential (binary vs library interpreter) plus metamorphic relations between configurations (-f vs inline, stdin vs file, -o FILE vs -o -, -r E vs BEGINFILE { $ = E })",
    "500 (30k thorough) configurations x 3-6 subprocesses each: program inline / -f, stdin / 1-3 files / missing file / directory, 0-2 selectors, -o absent / - / path / unwritable path, programs from four generators including failing ones, and degenerate program texts (empty, blank, comment only). Exploration (differential CLI vs library + metamorphic).",
-   "Trusted: lang.EvalProgram + GetRootJson as the reference for the binary. A watchdog kill (20 s) is inconclusive and dropped.", "5/C14"),
+   "Trusted: lang.EvalProgram + GetRootJson as the reference for the binary. A watchdog kill (20 s) is inconclusive and dropped. Open finding KF-selector-scope (a -r selector sees nothing but $): oracle (6) is not applied to selectors that mention $file or a global, and those cases are counted as excluded.", "5/C14"),
  "C15": ("exploration", "rapid stateful (model-based) PBT: one list operation per step on five arrays, results and all contents printed after every step, differential against a reference list model",
    "6k (120k thorough) histories of up to 20 (60) operations - push, pop, popfirst, index read/write with every index class, length, contains, sort, and method calls nested in each other's arguments - on arrays held by variables, by the document and by an object; after every step the result and every array with its length are compared with refjq's ideal list, and the final document with the reference root. Exploration (stateful model-based).",
    "Trusted: refjq's list model (DESIGN.md 4.8, section 3.6 for contains, string form for sort). Arrays are reached through the name or path that holds them, as the property states; aliasing is C09's subject.", "5/C15, 4.8"),
